@@ -72,7 +72,13 @@ func checkSize(c sizeCase) error {
 		return fmt.Errorf("Marshal failed: %v", err)
 	}
 	if c.TouchFirst && exception {
-		if size < len(b) {
+		// "Size might return more bytes than Marshal will write": asserted where the perturbations can
+		// only lengthen the input. Map entries with an omitted default key/value and the packed form of
+		// an unpacked field are non-canonical too but *shorter* than what Marshal writes once the lazy
+		// field has been expanded; the property carves the whole non-minimal case out, so no relation
+		// is asserted for them.
+		shrinking := hasLabel(c.Labels, "map-omitted-key") || hasLabel(c.Labels, "map-omitted-value") || hasLabel(c.Labels, "repacked")
+		if size < len(b) && !shrinking {
 			return fmt.Errorf("Size %d < len(Marshal) %d even under the lazy/non-minimal exception", size, len(b))
 		}
 	} else if size != len(b) {
